@@ -55,7 +55,16 @@ def adjusters():
         st.integers(1, 8), st.integers(0, 40), st.integers(3, 10))
 
 
-def sizes(cfg, adj):
+def sizes(cfg, adj, bias=None):
+    if bias == 'multi':
+        t = cfg['multipart_threshold']
+        c = max(cfg['multipart_chunksize'], adj[0] if adj else 1)
+        return st.one_of(
+            st.integers(t, t + 5 * c + 2),
+            st.integers(t, t + 5 * c + 2),
+            st.sampled_from([t, t + 1, t + c, t + 2 * c + 1,
+                             max(t, 2 * c), max(t, 3 * c) + 1]),
+            sizes(cfg, adj))
     t = cfg['multipart_threshold']
     c = max(cfg['multipart_chunksize'], adj[0] if adj else 1)
     cand = {0, 1, t - 1, t, t + 1}
@@ -97,7 +106,7 @@ def subscribers(profile):
 def transfers(profile, cfg, adj):
     types = profile.get('types', ['upload', 'download', 'copy', 'delete'])
     subs = subscribers(profile)
-    sz = sizes(cfg, adj)
+    sz = sizes(cfg, adj, profile.get('size_bias'))
     srcs = profile.get('srcs', ['path', 'seek', 'nonseek'])
     dsts = profile.get('dsts', ['path', 'seek', 'nonseek', 'special'])
     alts = []
@@ -147,7 +156,7 @@ def stream_scripts(profile):
     kinds = ['retryable:0', 'retryable:1', 'retryable:2', 'retryable:3',
              'retryable:4']
     if profile.get('stream_hard_faults'):
-        kinds = kinds + ['injected']
+        kinds = kinds + ['injected', 'valueerror']
     one = st.fixed_dictionaries({
         'short': st.lists(st.integers(0, 8), max_size=4),
         'fault_at': st.one_of(st.none(), st.none(), st.integers(0, 40)),
@@ -156,12 +165,69 @@ def stream_scripts(profile):
     return st.lists(one, max_size=5)
 
 
-def fault_plans(profile):
-    sites = profile.get('fault_sites')
-    if not sites:
+def applicable_sites(t, cfg):
+    """Fault sites a transfer can actually visit (so plans are built by
+    construction, not by rejection)."""
+    out = []
+    size = t.get('size', 0)
+    multi = size >= cfg['multipart_threshold']
+    subs = t.get('subs') or []
+    sized = any(s.get('size') for s in subs)
+    if t['type'] == 'upload':
+        if t['src'] == 'path':
+            out += ['fs.open', 'fs.read']
+        else:
+            out += ['src.read']
+        if multi:
+            out += ['s3.create_multipart_upload', 's3.upload_part',
+                    's3.upload_part', 's3.complete_multipart_upload',
+                    's3.abort_multipart_upload']
+        else:
+            out += ['s3.put_object']
+    elif t['type'] == 'download':
+        if not sized:
+            out += ['s3.head_object']
+        out += ['s3.get_object', 'stream.read', 'stream.read']
+        if t['dst'] == 'path':
+            out += ['fs.open', 'fs.write', 'fs.close', 'fs.rename']
+        elif t['dst'] == 'special':
+            out += ['fs.open', 'fs.write', 'fs.close']
+        else:
+            out += ['dst.write']
+    elif t['type'] == 'copy':
+        if not sized:
+            out += ['s3.head_object']
+        if multi:
+            out += ['s3.create_multipart_upload', 's3.upload_part_copy',
+                    's3.upload_part_copy', 's3.complete_multipart_upload',
+                    's3.abort_multipart_upload']
+        else:
+            out += ['s3.copy_object']
+    else:
+        out += ['s3.delete_object']
+    if subs:
+        out += ['cb.on_queued', 'cb.on_progress']
+    return out
+
+
+MANY = ('s3.upload_part', 's3.upload_part_copy', 'stream.read', 'fs.write',
+        'src.read', 'fs.read', 'dst.write', 'cb.on_progress',
+        's3.get_object')
+
+
+def fault_plans(profile, ts=None, cfg=None):
+    allowed = profile.get('fault_sites')
+    if not allowed:
         return st.just([])
+    sites = []
+    for t in ts or []:
+        sites += [s for s in applicable_sites(t, cfg) if s in allowed]
+    if not sites:
+        sites = list(allowed)
 
     def mk(site, nth, when, exc):
+        if site not in MANY:
+            nth = nth % 2 if nth < 4 else 0
         d = {'site': site, 'nth': nth, 'exc': exc}
         if site.startswith('s3.'):
             d['when'] = when
@@ -172,7 +238,8 @@ def fault_plans(profile):
             d['exc'] = 'injected'
         return d
     excs = profile.get('fault_excs', ['injected', 'injected', 'oserror'])
-    one = st.builds(mk, st.sampled_from(sites), st.integers(0, 6),
+    one = st.builds(mk, st.sampled_from(sites),
+                    st.sampled_from([0, 0, 0, 1, 1, 2, 3, 4, 5]),
                     st.sampled_from(['before', 'before', 'after']),
                     st.sampled_from(excs))
     return st.lists(one, min_size=profile.get('min_faults', 0),
@@ -210,7 +277,7 @@ def e2e_cases(draw, profile):
         'transfers': ts,
         'scripts': {'body': draw(body_scripts(profile)),
                     'stream': draw(stream_scripts(profile))},
-        'faults': draw(fault_plans(profile)),
+        'faults': draw(fault_plans(profile, ts, cfg)),
         'end': draw(ends(profile)),
         'sched': draw(schedules()),
     }
